@@ -144,9 +144,9 @@ Ins(s, k, x) == [j \in 1..(Len(s) + 1) |-> IF j < k THEN s[j] ELSE IF j = k THEN
 RECURSIVE Dedup(_)
 Dedup(s) == IF Len(s) = 0 THEN <<>>
             ELSE LET r == Dedup(SubSeq(s, 1, Len(s) - 1)) IN IF \E j \in 1..Len(r) : r[j] = s[Len(s)] THEN r ELSE Append(r, s[Len(s)])
-ResPivots == {Disj(vp, vq), Neg(Disj(vp, vq))} \cup (IF Level >= 2 THEN {Conj(vp, vq), Imp(vp, vq)} ELSE {}) \cup (IF Level >= 3 THEN {vp, Neg(vp)} ELSE {})
-ResOthers1 == IF Level = 1 THEN {<<vr>>} ELSE IF Level = 2 THEN {<<vr, Disj(vs, vr)>>} ELSE {<<vr>>, <<vr, Disj(vs, vr)>>, <<Conj(vr, vs), vr>>}
-ResOthers2 == IF Level = 1 THEN {<<>>, <<Imp(vr, vs)>>} ELSE IF Level = 2 THEN {<<Imp(vr, vs)>>} ELSE {<<>>, <<Imp(vr, vs)>>, <<vs, Disj(vr, vs)>>}
+ResPivots == {Disj(vp, vq), Neg(Disj(vp, vq))} \cup (IF Level >= 2 THEN {Conj(vp, vq), Imp(vp, vq)} ELSE {}) \cup (IF Level >= 3 THEN {vp} ELSE {})
+ResOthers1 == IF Level = 1 THEN {<<vr>>} ELSE IF Level = 2 THEN {<<vr, Disj(vs, vr)>>} ELSE {<<vr>>, <<vr, Disj(vs, vr)>>}
+ResOthers2 == IF Level = 1 THEN {<<>>, <<Imp(vr, vs)>>} ELSE IF Level = 2 THEN {<<Imp(vr, vs)>>} ELSE {<<>>, <<Imp(vr, vs)>>}
 R_resolution_compound ==
   UNION { UNION { UNION { UNION { { IX("verit_th_resolution", <<PS(OrN(Ins(o1, i, L))), PS(OrN(Ins(o2, j, Neg(L))))>>, Dedup(o1 \o o2),
                                        RX(<<Len(o1) + 1, Len(o2) + 1>>))
